@@ -114,6 +114,17 @@ def shape_jobs(tier):
     for pname in ("square", "ell"):
         jobs.append(("sweep", {"polygon": pname, "path": "straight"}))
         jobs.append(("sweep", {"polygon": pname, "path": "ell"}))
+    # sweeps along a straight tilted path of integer length 7 = |(2,3,6)|, with and without roll: the solid is a
+    # prism over the profile whatever the roll, so V = A.7 and S = 2A + P.7 exactly
+    for pname in ("square", "ell", "square_hole"):
+        for roll in (None, [0.7, 0.7], [1.3, 1.3], [-0.4, -0.4]):   # a constant roll keeps the sweep a prism
+            for direction in ([2, 3, 6], [-6, 2, 3], [3, -6, 2], [0, 0, 7]):
+                jobs.append(("sweep_prism", {"polygon": pname, "roll": roll, "direction": direction}))
+    # Extrusion primitives over polygons with holes: closed-form area / volume of the primitive and of its mesh
+    for pname in polys:
+        for h in (1, 3):
+            jobs.append(("prim_extrusion", {"polygon": pname, "height": h, "which": "closed_form"}))
+            jobs.append(("prim_extrusion", {"polygon": pname, "height": h, "which": "mesh"}))
     POLYS.update(polys)
     PROFILES.update(profiles)
     return jobs
@@ -161,7 +172,20 @@ def make_shape(tm, kind, p):
         poly = Polygon(np.array(shell) * 0.1 - 0.2)
         path = np.array([[0, 0, 0], [0, 0, 5]], dtype=float) if p["path"] == "straight" else np.array([[0, 0, 0], [0, 0, 4], [3, 0, 4]], dtype=float)
         return c.sweep_polygon(poly, path), -1
+    if kind == "sweep_prism":
+        from shapely.geometry import Polygon
+        shell, holes = POLYS[p["polygon"]]
+        poly = Polygon(shell, holes)
+        path = np.array([[1.0, 2.0, 3.0], np.array([1.0, 2.0, 3.0]) + np.array(p["direction"], dtype=float)])
+        return c.sweep_polygon(poly, path, angles=p["roll"]), -1
     raise MachineryError(kind)
+
+
+class _Measures:
+    """stand-in carrying the closed-form measures a primitive reports next to its mesh topology"""
+
+    def __init__(self, mesh, volume, area):
+        self.faces, self.vertices, self.volume, self.area = mesh.faces, mesh.vertices, volume, area
 
 
 def _shape_chunk(jobs):
@@ -169,9 +193,23 @@ def _shape_chunk(jobs):
     out = []
     for kind, p in jobs:
         try:
-            m, genus = make_shape(tm, kind, p)
+            if kind == "prim_extrusion":
+                from shapely.geometry import Polygon
+                shell, holes = POLYS[p["polygon"]]
+                prim = tm.primitives.Extrusion(polygon=Polygon(shell, holes), height=float(p["height"]))
+                mesh = prim.to_mesh()
+                m = _Measures(mesh, prim.volume, prim.area) if p["which"] == "closed_form" else mesh
+                genus = -1
+            else:
+                m, genus = make_shape(tm, kind, p)
             flat = None
-            if kind == "extrude":
+            if kind == "sweep_prism":
+                shell, holes = POLYS[p["polygon"]]
+                flat = {"shell": shell, "holes": holes, "height": 7}
+            elif kind == "prim_extrusion":
+                shell, holes = POLYS[p["polygon"]]
+                flat = {"shell": shell, "holes": holes, "height": p["height"]}
+            elif kind == "extrude":
                 shell, holes = POLYS[p["polygon"]]
                 flat = {"shell": shell, "holes": holes, "height": p["height"]}
             elif kind == "box":
@@ -368,7 +406,8 @@ def main(argv):
     for cid, clause in sorted(rejects.items()):
         dev = None
         pr = meta[cid]["params"]
-        if meta[cid]["kind"] == "extrude" and clause == "analytic_area" and pr.get("engine") == "earcut" and len(POLYS[pr["polygon"]][1]) >= 2:
+        earcut = pr.get("engine") == "earcut" or (meta[cid]["kind"] in ("prim_extrusion", "sweep_prism") and pr.get("which") != "closed_form")
+        if meta[cid]["kind"] in ("extrude", "prim_extrusion", "sweep_prism") and clause == "analytic_area" and earcut and len(POLYS[pr["polygon"]][1]) >= 2:
             dev = "ExtrudeEarcutTJunctions"
         V.violation(f"{meta[cid]['kind']}:{clause}", dict(meta[cid], exc=cases[cid]["exc"], vol_fp=cases[cid].get("vol_fp"), n_faces=len(cases[cid].get("faces", []))), dev)
     # primitive state machine
